@@ -2,6 +2,7 @@ import TF.Proofs.MmrMember
 import TF.Proofs.MmrNodeIndex
 import TF.Proofs.MmrUpdAppend
 import TF.Proofs.MmrUpdAppendBatch
+import TF.Proofs.MmrUpdMutate
 /-!
 # C05 — MMR membership proofs stay exact through every history; verification exact
 
@@ -181,27 +182,95 @@ example : batchUpdateFromAppend (fun a b : Nat => a + 2 * b) [[], [2, 11], []] [
 example : batchUpdateFromAppend (fun a b : Nat => a + 2 * b) [[2, 11], [6]] [0, 4] 6 7 [27, 17] = some ([[2, 11], [6]], [])
     := by decide +kernel
 
-/-- `update_from_leaf_mutation`: the from-scratch path of the changed leaf list; `false` only if nothing changed -/
-def update_from_leaf_mutation_spec_statement : Prop :=
+/-! ### leaf mutations: the three membership-proof routines, proved (helper lemmas: `TF/Proofs/MmrUpdMutate.lean`)
+
+The digest at slot `t` of the path of leaf `i` is the root of the sibling block `sibBlk (i / 2^t)` of level `t`, stored
+under its post-order node index; a mutation of leaf `j` recomputes the blocks `j / 2^t` bottom-up along `j`'s path.  The
+routines' maps of recomputed digests satisfy: what is stored under a node below a peak is its digest in the new leaf
+list, what is not stored did not change (`MapInv`); the replacement loops turn that into the new from-scratch path. -/
+
+/-- **update_from_leaf_mutation_spec**: `update_from_leaf_mutation`, given the from-scratch path of leaf `i` and the
+    mutation of leaf `j` (with its from-scratch path), never panics and leaves exactly the from-scratch path of `i` in
+    the changed leaf list; it returns `false` only if nothing changed.  (It returns `true` whenever the mutated leaf
+    lies under one of the path's sibling nodes, also when the recomputed digest equals the stored one.) -/
+theorem update_from_leaf_mutation_spec :
   ∀ (D : Type) [DecidableEq D] (H : D → D → D) (g : Nat → D) (n i j : Nat) (d : D), i < n → j < n → n < 2 ^ 63 →
     ∃ b, updateFromLeafMutation H (authPathOf H g n i) i ⟨j, d, authPathOf H g n j⟩
         = some (authPathOf H (Function.update g j d) n i, b) ∧
-      (b = false → authPathOf H (Function.update g j d) n i = authPathOf H g n i)
+      (b = false → authPathOf H (Function.update g j d) n i = authPathOf H g n i) := by
+  intro D _ H g n i j d hi hj hn
+  obtain ⟨b, h1, h2, _⟩ := updateFromLeafMutation_spec H g n i j d hi hj hn
+  exact ⟨b, h1, h2⟩
+example : (0 : Nat) < 7 ∧ (3 : Nat) < 7 ∧ (7 : Nat) < 2 ^ 63 := by decide
+/-- 7 leafs `1 … 7`, leaf 3 becomes 100: the proof `[2, 11]` of leaf 0 becomes `[2, 203]`; a mutation in another tree
+    leaves it alone -/
+example : updateFromLeafMutation (fun a b : Nat => a + 2 * b) [2, 11] 0 ⟨3, 100, [3, 5]⟩ = some ([2, 203], true) ∧
+    updateFromLeafMutation (fun a b : Nat => a + 2 * b) [2, 11] 0 ⟨5, 100, [5]⟩ = some ([2, 11], false) := by
+  decide +kernel
 
-/-- `batch_update_from_leaf_mutation`: reports exactly the changed proofs -/
-def batch_update_from_leaf_mutation_spec_statement : Prop :=
+/-- the flag of `update_from_leaf_mutation` exactly: `true` iff the mutated leaf `j` lies under one of the sibling
+    nodes of `i`'s path (i.e. `j ≠ i` is in the tree of `i`) - whether or not the recomputed digest differs -/
+theorem update_from_leaf_mutation_flag :
+  ∀ (D : Type) [DecidableEq D] (H : D → D → D) (g : Nat → D) (n i j : Nat) (d : D), i < n → j < n → n < 2 ^ 63 →
+    ∃ b, updateFromLeafMutation H (authPathOf H g n i) i ⟨j, d, authPathOf H g n j⟩
+        = some (authPathOf H (Function.update g j d) n i, b) ∧
+      (b = true ↔ ∃ t < (locate n i).1, sibBlk (i / 2 ^ t) = j / 2 ^ t) := by
+  intro D _ H g n i j d hi hj hn
+  obtain ⟨b, h1, _, h3⟩ := updateFromLeafMutation_spec H g n i j d hi hj hn
+  exact ⟨b, h1, h3⟩
+/-- leaf 3 "becomes" 4, the digest it holds: the proof of leaf 0 is unchanged, the routine still returns `true` -/
+example : updateFromLeafMutation (fun a b : Nat => a + 2 * b) [2, 11] 0 ⟨3, 4, [3, 5]⟩ = some ([2, 11], true) := by
+  decide +kernel
+
+/-- **batch_update_from_leaf_mutation_spec**: `batch_update_from_leaf_mutation`, given the from-scratch paths of any
+    list of leafs (any subset, any order, repetitions allowed) and the mutation of leaf `j` with its from-scratch path,
+    never panics, leaves exactly the from-scratch paths in the changed leaf list, and reports exactly the positions of
+    the proofs whose digests changed (none if the leaf is "mutated" to a digest that leaves them all unchanged) -/
+theorem batch_update_from_leaf_mutation_spec :
   ∀ (D : Type) [DecidableEq D] (H : D → D → D) (g : Nat → D) (n j : Nat) (d : D) (lis : List Nat),
     (∀ i ∈ lis, i < n) → j < n → n < 2 ^ 63 →
     batchUpdateFromLeafMutation H (lis.map (authPathOf H g n)) lis ⟨j, d, authPathOf H g n j⟩
-      = some (lis.map (authPathOf H (Function.update g j d) n), changedSlots H g (Function.update g j d) n n lis)
+      = some (lis.map (authPathOf H (Function.update g j d) n), changedSlots H g (Function.update g j d) n n lis) := by
+  intro D _ H g n j d lis hlis hj hn
+  exact batchUpdateFromLeafMutation_spec H g n j d lis hlis hj hn
+example : (∀ i ∈ [0, 2, 5, 3, 6], i < 7) ∧ (3 : Nat) < 7 ∧ (7 : Nat) < 2 ^ 63 := by decide
+/-- 7 leafs `1 … 7`, proofs of the leafs 0, 2, 5, 3, 6; leaf 3 becomes 100: the proofs of leafs 0 and 2 (positions 0
+    and 1) change; leaf 3 "becomes" 4, the digest it holds: nothing changes, nothing is reported -/
+example : batchUpdateFromLeafMutation (fun a b : Nat => a + 2 * b) [[2, 11], [4, 5], [5], [3, 5], []] [0, 2, 5, 3, 6]
+      ⟨3, 100, [3, 5]⟩ = some ([[2, 203], [100, 5], [5], [3, 5], []], [0, 1]) ∧
+    batchUpdateFromLeafMutation (fun a b : Nat => a + 2 * b) [[2, 11], [4, 5], [5], [3, 5], []] [0, 2, 5, 3, 6]
+      ⟨3, 4, [3, 5]⟩ = some ([[2, 11], [4, 5], [5], [3, 5], []], []) := by
+  decide +kernel
 
-/-- `batch_update_from_batch_leaf_mutation`: distinct mutated leafs in any order, proofs valid before the batch -/
-def batch_update_from_batch_leaf_mutation_spec_statement : Prop :=
+/-- **batch_update_from_batch_leaf_mutation_spec**: `batch_update_from_batch_leaf_mutation`, given the from-scratch
+    paths of any list of leafs and mutations of distinct leafs in any order, each with its from-scratch path *before*
+    the batch, never panics, leaves exactly the from-scratch paths in the leaf list after the whole batch, and reports
+    exactly the positions of the proofs whose digests changed -/
+theorem batch_update_from_batch_leaf_mutation_spec :
   ∀ (D : Type) [DecidableEq D] (H : D → D → D) (g : Nat → D) (n : Nat) (ms : List (Nat × D)) (lis : List Nat),
     (∀ i ∈ lis, i < n) → (∀ m ∈ ms, m.1 < n) → (ms.map (·.1)).Nodup → n < 2 ^ 63 →
     batchUpdateFromBatchLeafMutation H (lis.map (authPathOf H g n)) lis
         (ms.map fun m => ⟨m.1, m.2, authPathOf H g n m.1⟩)
-      = some (lis.map (authPathOf H (applyMuts g ms) n), changedSlots H g (applyMuts g ms) n n lis)
+      = some (lis.map (authPathOf H (applyMuts g ms) n), changedSlots H g (applyMuts g ms) n n lis) := by
+  intro D _ H g n ms lis hlis hms hnd hn
+  exact batchUpdateFromBatchLeafMutation_spec H g n ms lis hlis hms hnd hn
+example : (∀ m ∈ [((3 : Nat), (100 : Nat)), (0, 50), (5, 9)], m.1 < 7) ∧
+    ([((3 : Nat), (100 : Nat)), (0, 50), (5, 9)].map (·.1)).Nodup := by decide
+/-- 7 leafs `1 … 7`, proofs of the leafs 0, 2, 5, 3, 6; the leafs 3, 0, 5 become 100, 50, 9 -/
+example : batchUpdateFromBatchLeafMutation (fun a b : Nat => a + 2 * b) [[2, 11], [4, 5], [5], [3, 5], []]
+      [0, 2, 5, 3, 6] [⟨3, 100, [3, 5]⟩, ⟨0, 50, [2, 11]⟩, ⟨5, 9, [5]⟩]
+    = some ([[2, 203], [100, 54], [5], [3, 54], []], [0, 1, 3]) := by
+  decide +kernel
+
+/-- the excluded branch of `batch_update_from_batch_leaf_mutation_spec`: a batch that mutates a leaf twice makes
+    `batch_update_from_batch_leaf_mutation` panic (`assert!(former_value.is_none())`), whatever proofs are handed -/
+theorem batch_update_from_batch_leaf_mutation_duplicate_panics :
+  ∀ (D : Type) [DecidableEq D] (H : D → D → D) (paths : List (List D)) (lis : List Nat) (lms : List (LeafMutation D)),
+    ¬ (lms.map (·.leaf_index)).Nodup → batchUpdateFromBatchLeafMutation H paths lis lms = none := by
+  intro D _ H paths lis lms h
+  exact batchUpdateFromBatchLeafMutation_dup_panics H paths lis lms h
+example : batchUpdateFromBatchLeafMutation (fun a b : Nat => a + 2 * b) [[2, 11]] [0]
+    [⟨1, 100, [1, 11]⟩, ⟨3, 7, [3, 5]⟩, ⟨1, 101, [1, 11]⟩] = none := by decide +kernel
 
 /-- `MmrAccumulator::batch_mutate_leaf_and_update_mps`: additionally the accumulator becomes the from-scratch one -/
 def batch_mutate_leaf_and_update_mps_spec_statement : Prop :=
@@ -327,8 +396,8 @@ example : (HState.run (fun a b : Nat => a + 2 * b) ⟨⟨0, []⟩, []⟩ ([1, 2,
     the accumulator and every tracked proof equal to the from-scratch ones.  In particular every history that consists
     of appends only is covered unconditionally (`append_history_preserves_proofs`). -/
 theorem history_preserves_proofs_partial
-    (hM : update_from_leaf_mutation_spec_statement)
     (hB : batch_mutate_leaf_and_update_mps_spec_statement) : history_preserves_proofs_statement := by
+  have hM := update_from_leaf_mutation_spec
   intro D _ H g0 ops
   -- generalise the start: any honest state below 2^63 leafs
   suffices hgen : ∀ (ops : List (HOp D)) (s : Nat × (Nat → D)) (st : HState D), s.1 < 2 ^ 63 → Honest H st s →
